@@ -138,15 +138,61 @@ pub fn with_gone_listener(mut adf: Adf) -> Adf {
     adf
 }
 
+/// splits a generated text after its first `ac` fact (facts end with a dot outside quotes and brackets); only texts that
+/// declare all statements before their first condition are split, so that the first portion declares every statement
+/// it mentions
+fn split_after_first_ac(text: &str) -> Option<(&str, &str)> {
+    let (mut depth, mut quoted, mut start) = (0i32, false, 0usize);
+    let mut cut: Option<usize> = None;
+    for (i, ch) in text.char_indices() {
+        match ch {
+            '"' => quoted = !quoted,
+            '(' if !quoted => depth += 1,
+            ')' if !quoted => depth -= 1,
+            '.' if !quoted && depth == 0 => {
+                let fact = text[start..=i].trim_start();
+                start = i + 1;
+                let is_ac = fact.starts_with("ac(") || fact.starts_with("ac (");
+                match cut {
+                    None if is_ac => cut = Some(start),
+                    Some(_) if !is_ac => return None, // a statement is declared after the first condition
+                    _ => {}
+                }
+            }
+            _ => {}
+        }
+    }
+    let c = cut?;
+    if text[c..].trim().is_empty() {
+        None
+    } else {
+        Some((&text[..c], &text[c..]))
+    }
+}
+
 pub fn sem_case_o(prop: &str, text: &str, orc: &Oracle, sorting: usize, labels: &[String], out: &mut Found, st: &mut Stats) {
-    sem_case_inner(prop, text, orc, sorting, labels, out, st, false);
+    sem_case_inner(prop, text, orc, sorting, labels, out, st, false, None);
     VARMAP.with(|vm| *vm.borrow_mut() = None);
+    if sorting == 0 && (2..=3).contains(&orc.n) && hash64(text.as_bytes()) % 4 == 0 {
+        // the same input read in two portions by one parser object, with an instantiation (native and biodivine) after
+        // the first portion: every object below is made after the second portion and must be an object of the whole input
+        if let Some(portions) = split_after_first_ac(text) {
+            let mut out2: Found = vec![];
+            let cases = st.cases;
+            sem_case_inner(prop, text, orc, sorting, labels, &mut out2, st, false, Some(portions));
+            st.cases = cases;
+            VARMAP.with(|vm| *vm.borrow_mut() = None);
+            for (k, m) in out2 {
+                out.push((format!("two-portions:{}", k), format!("{} (the parser read the input in two portions, {:?} and {:?}, and served an instantiation in between)", m, portions.0, portions.1)));
+            }
+        }
+    }
     if sorting != 0 && orc.n <= 8 {
         // the same once more, but the parser has already served an instantiation (native and biodivine) BEFORE it was
         // sorted: every object below is a second instantiation from a re-sorted parser
         let mut out2: Found = vec![];
         let cases = st.cases;
-        sem_case_inner(prop, text, orc, sorting, labels, &mut out2, st, true);
+        sem_case_inner(prop, text, orc, sorting, labels, &mut out2, st, true, None);
         st.cases = cases;
         VARMAP.with(|vm| *vm.borrow_mut() = None);
         for (k, m) in out2 {
@@ -156,11 +202,20 @@ pub fn sem_case_o(prop: &str, text: &str, orc: &Oracle, sorting: usize, labels: 
 }
 
 #[allow(clippy::too_many_arguments)]
-fn sem_case_inner(prop: &str, text: &str, orc: &Oracle, sorting: usize, labels: &[String], out: &mut Found, st: &mut Stats, instantiate_before_sorting: bool) {
+fn sem_case_inner(prop: &str, text: &str, orc: &Oracle, sorting: usize, labels: &[String], out: &mut Found, st: &mut Stats, instantiate_before_sorting: bool, portions: Option<(&str, &str)>) {
     let n = orc.n;
     st.cases += 1;
     let parser = AdfParser::default();
-    let parsed = guard(|| crate::fam::parse_into(&parser, text));
+    let parsed = match portions {
+        None => guard(|| crate::fam::parse_into(&parser, text)),
+        Some((p1, p2)) => guard(|| {
+            let ok1 = matches!(parser.parse()(p1), Ok((rest, _)) if rest.trim().is_empty());
+            let _a = Adf::from_parser(&parser);
+            let _b = BdAdf::from_parser(&parser);
+            let ok2 = matches!(parser.parse()(p2), Ok((rest, _)) if rest.trim().is_empty());
+            ok1 && ok2
+        }),
+    };
     if parsed != Ok(true) {
         out.push(("parse".into(), format!("generated well-formed input was not accepted: {:?}", parsed)));
         return;
@@ -277,6 +332,14 @@ fn sem_case_inner(prop: &str, text: &str, orc: &Oracle, sorting: usize, labels: 
                 let r = guarded("from_biodivine", out, st, || Adf::from_biodivine(&bd).complete().collect::<Vec<_>>());
                 chk("from_biodivine", r, out);
             }
+            // the object that also carries the single-formula stable rewriting (what the CLI builds for --stmrew): every
+            // other answer of it, and of the hybrid objects made from it, is an answer about the same ADF
+            if let Some(bd) = guarded("biodivine(rewrite):build", out, st, || BdAdf::from_parser_with_stm_rewrite(&parser)) {
+                let r = guarded("biodivine(rewrite)", out, st, || bd.complete().collect::<Vec<_>>());
+                chk("biodivine(rewrite)", r, out);
+                let r = guarded("hybrid(rewrite, pre-grounded)", out, st, || bd.hybrid_step().complete().collect::<Vec<_>>());
+                chk("hybrid(rewrite, pre-grounded)", r, out);
+            }
         }
         "C03" => {
             let want = orc.stable.clone();
@@ -331,10 +394,11 @@ fn sem_case_inner(prop: &str, text: &str, orc: &Oracle, sorting: usize, labels: 
                         cmp_models(&l, &r, &want, n, out);
                     }
                 }
-                for (hl, pre) in [("hybrid(pre-grounded)", 1), ("hybrid_opt(false)", 0), ("from_biodivine", 2)] {
+                for (hl, pre) in [("hybrid(pre-grounded)", 1), ("hybrid_opt(false)", 0), ("from_biodivine", 2), ("hybrid(rewrite, pre-grounded)", 3)] {
                     let mk = || match pre {
                         1 => bd.hybrid_step(),
                         0 => bd.hybrid_step_opt(false),
+                        3 => bd2.hybrid_step(),
                         _ => Adf::from_biodivine(&bd),
                     };
                     let l = format!("{}.stable", hl);
@@ -362,8 +426,9 @@ fn sem_case_inner(prop: &str, text: &str, orc: &Oracle, sorting: usize, labels: 
                 st.nontrivial += 1;
             }
             let bd = guarded("biodivine:build", out, st, || BdAdf::from_parser(&parser));
-            for which in 0..7 {
-                let label = ["native", "hybrid(pre-grounded)", "hybrid_opt(false)", "from_biodivine", "reimported(serde)", "reimported(node list)", "native+gone-listener"][which];
+            let bdr = guarded("biodivine(rewrite):build", out, st, || BdAdf::from_parser_with_stm_rewrite(&parser));
+            for which in 0..9 {
+                let label = ["native", "hybrid(pre-grounded)", "hybrid_opt(false)", "from_biodivine", "reimported(serde)", "reimported(node list)", "native+gone-listener", "hybrid(rewrite, pre-grounded)", "hybrid_opt(rewrite, false)"][which];
                 let mk = || -> Option<Adf> {
                     match which {
                         0 => Some(Adf::from_parser(&parser)),
@@ -372,10 +437,12 @@ fn sem_case_inner(prop: &str, text: &str, orc: &Oracle, sorting: usize, labels: 
                         3 => bd.as_ref().map(Adf::from_biodivine),
                         4 => Some(crate::c14::roundtrip_serde(&Adf::from_parser(&parser))),
                         5 => Some(crate::c14::roundtrip_dblayer(&Adf::from_parser(&parser))),
-                        _ => Some(with_gone_listener(Adf::from_parser(&parser))),
+                        6 => Some(with_gone_listener(Adf::from_parser(&parser))),
+                        7 => bdr.as_ref().map(|b| b.hybrid_step()),
+                        _ => bdr.as_ref().map(|b| b.hybrid_step_opt(false)),
                     }
                 };
-                if (1..4).contains(&which) && bd.is_none() {
+                if ((1..4).contains(&which) && bd.is_none()) || (which >= 7 && bdr.is_none()) {
                     continue;
                 }
                 let l = format!("{}.heu_a", label);
